@@ -355,8 +355,9 @@ def deleg_slice(ctx, facts, fid, finisher=None, rule="DELEG"):
             return
         fc = fcalls[0]
         fconds = nf.all_conditions(t, fc)
-        if t.enclosing_loops(fc) or fconds != [("cmp", "0", "<", "self.nb_empty")]:
-            ctx.violation(rule, fid, "finisher guard", hirq.loc(fc), "self.%s must run once after the loop exactly when nb_empty > 0; found conditions %s" % (finisher, fconds))
+        fother = [c_ for c_ in fconds if c_ not in (("cmp", "0", "<", "self.nb_empty"), ("cmp", "0", "!=", "self.nb_empty"))]
+        if t.enclosing_loops(fc) or fother:
+            ctx.violation(rule, fid, "finisher guard", hirq.loc(fc), "self.%s must run once after the loop whenever bins are empty; found conditions %s" % (finisher, fconds))
             return
         if not (fl[0]["match"]["sp"][1] < fc["sp"][1]):
             ctx.violation(rule, fid, "finisher order", hirq.loc(fc), "the finisher must come after the per-element loop")
